@@ -93,7 +93,7 @@ func carrierN(attr, s string, i int) (svc map[string]any, top map[string]any, ki
 	return
 }
 
-func c12ExtractN(p map[string]any, attr string, i int) any {
+func c12ExtractN(p map[string]any, attr string, i int) (any, map[string]any) {
 	q := map[string]any{"services": map[string]any{}}
 	if ss, ok := p["services"].(map[string]any); ok {
 		q["services"] = map[string]any{"svc": ss[fmt.Sprintf("svc%d", i)]}
@@ -109,12 +109,12 @@ func c12ExtractN(p map[string]any, attr string, i int) any {
 			q[sect] = mm
 		}
 	}
-	got, _ := c12Extract(q, attr)
-	return got
+	return c12Extract(q, attr)
 }
 
 type multiObs struct {
 	c12Obs
+	Frame map[string]any   `json:"frame,omitempty"` // non-path attributes of the unit's service, as loaded
 	Via   string           `json:"via"`
 	Steps []map[string]any `json:"steps"`
 }
@@ -314,7 +314,7 @@ func realMulti(raw json.RawMessage) any {
 	var tree map[string]any
 	json.Unmarshal(b, &tree)
 	for i, u := range a.Units {
-		sc.obs[i].Got = c12ExtractN(tree, u.Attr, i)
+		sc.obs[i].Got, sc.obs[i].Frame = c12ExtractN(tree, u.Attr, i)
 	}
 	return map[string]any{"root": root, "home": home, "obs": sc.obs, "dirs": dirs, "wd": details.WorkingDir, "alias": scrub(alias)}
 }
@@ -416,6 +416,20 @@ func init() {
 				if o.Got == nil || got != *d[i].Want {
 					return core.Fail(fmt.Sprintf("multi:%s:%s:%s", mode, o.Via, o.Name),
 						fmt.Sprintf("unit %d (%s, dir %q) %s=%q (%s, resolution %s): project has %v, the property says %q", i, o.Via, a.Units[i].Dir, o.Name, o.S, shape, mode, o.Got, *d[i].Want))
+				}
+			}
+			// frame: the non-path attributes of every unit come out as written, whatever the neighbours are
+			wantFrame := map[string]string{"image": "./img", "working_dir": "./wd", "command": "./run", "dockerfile": "./Dockerfile", "named": "named"}
+			for i, o := range r.Obs {
+				ks := make([]string, 0, len(o.Frame))
+				for k := range o.Frame {
+					ks = append(ks, k)
+				}
+				sort.Strings(ks)
+				for _, k := range ks {
+					if s, _ := o.Frame[k].(string); s != wantFrame[k] {
+						return core.Fail("multi-frame:"+k, fmt.Sprintf("unit %d (%s): non-path attribute %s was rewritten to %v (%s)", i, o.Via, k, o.Frame[k], shape))
+					}
 				}
 			}
 			if !sameStrings(r.Alias.Opts, r.Alias.WantOpts) {
